@@ -60,3 +60,4 @@ def regRb (w : World) (f s c : Nat) : Bool := (w.chans c).readPending.any (fun p
 def regWb (w : World) (f s c : Nat) : Bool := (w.chans c).writePending.any (fun p => p.fiber == f && p.sched == s)
 
 end JanetModel.Ev
+
